@@ -293,3 +293,51 @@ func VerifC16_Middleware() {
 	verifAssert("middleware:pattern-reported-is-the-registered-one", mwPattern == patterns[pi])
 	verifCheckCapture("middleware:seen-by-middleware:", mwVars, "x", v)
 }
+
+// a request that matches no pattern gets one 404 response carrying goa's error body
+func VerifC16_NotFound() {
+	v := nondetString("v", 1)
+	verifAssume(v != "")
+	accepts := []string{"", "application/json", "application/xml", "text/html"}
+	accept := accepts[nondetChoice("accept", len(accepts))]
+	var target string
+	switch nondetChoice("miss", 3) {
+	case 0: // other literal prefix
+		target = "/q/" + url.PathEscape(v)
+	case 1: // one segment too many
+		target = "/p/" + url.PathEscape(v) + "/more"
+	default: // the bare prefix
+		target = "/p"
+	}
+	m := NewMuxer()
+	ran := false
+	m.Handle("GET", "/p/{x}", func(w http.ResponseWriter, req *http.Request) { ran = true })
+	u, err := url.ParseRequestURI(target)
+	verifAssert("notfound:target-parses", err == nil)
+	if err != nil {
+		return
+	}
+	if u.RawPath == "" && v == "/" {
+		return
+	}
+	hdr := http.Header{}
+	if accept != "" {
+		hdr.Set("Accept", accept)
+	}
+	w := &verifRW{h: http.Header{}}
+	m.ServeHTTP(w, &http.Request{Method: "GET", URL: u, Header: hdr, RequestURI: target})
+	verifAssert("notfound:no-handler-ran", !ran)
+	verifAssert("notfound:exactly-one-404", w.wrote == 1 && w.status == http.StatusNotFound)
+	if accept == "text/html" {
+		// known: the text encoder cannot write an *ErrorResponse
+		verifAssert("notfound:body-written[text-accept]", w.buf.Len() > 0)
+		return
+	}
+	verifAssert("notfound:body-written", w.buf.Len() > 0)
+	ct := w.h.Get("Content-Type")
+	if accept == "application/xml" {
+		verifAssert("notfound:negotiated-xml", ct == "application/xml")
+	} else {
+		verifAssert("notfound:json-by-default", ct == "application/json")
+	}
+}
